@@ -524,7 +524,7 @@ class Engine:
         prev = [v for k, v in self.apps.items() if k[0] == fname]
         self.apps[key] = (t, args)
         ax = _AXIOMS.get(fname)
-        if ax:
+        if ax and fname not in getattr(self, "no_axioms", ()):
             for c in ax(self, t, args, prev):
                 self._add(c)
         return t
